@@ -1,5 +1,80 @@
+import NessaiVerif.Model.MetaProposal
 import NessaiVerif.Driver.Parse
-/- stub: replaced by the owner of this area -/
+/-
+`mp run <useIid 0/1> op;op;…` at K = Rat.  Ops:
+  `pop [id:U,…] [id:U,…]`            populate (training, independent)
+  `w j n`                             add_new_proposal_weight(j, n)
+  `t it [id:U:[q,…],…] [id:q,…]`      training half of add_and_update_points (new samples, new column)
+  `i it [id:U:[q,…],…] [id:q,…]`      independent half
+  `dump`                              → `counts=[..] weights=[..] train=[id:Q:W,…] iid=[…]`
+Result: one `|`-separated field per op (`ok`, `err=<kind>` or the dump).
+-/
 namespace NessaiVerif.Driver.Meta
-def handle (_toks : List String) : String := "bad-op"
+open NessaiVerif NessaiVerif.Parse NessaiVerif.Meta
+
+def showErr : Err → String
+  | .runtimeErr => "err=runtime"
+  | .valueErr => "err=value"
+  | .shapeErr => "err=shape"
+
+def parsePair? (s : String) : Option (Nat × Rat) :=
+  match splitTop s ':' with
+  | [a, b] => do some ((← parseNat? a), (← parseRat? b))
+  | _ => none
+
+def parseNew? (s : String) : Option (Nat × Rat × List Rat) :=
+  match splitTop s ':' with
+  | [a, b, c] => do some ((← parseNat? a), (← parseRat? b), (← parseList? parseRat? c))
+  | _ => none
+
+def showMS (s : MS Rat) : String := s!"{s.id}:{showRat s.Q}:{showRat s.W}:{showList showRat s.row}"
+
+def dump (s : St Rat) : String :=
+  s!"counts={showList toString s.counts} weights={showList showRat s.weights} " ++
+  s!"train={showList showMS s.train} iid={showList showMS s.iid}"
+
+def stepOp (s : St Rat) (op : String) : Option (St Rat × String) :=
+  match (op.splitOn " ").filter (· ≠ "") with
+  | ["pop", a, b] => do
+      let a ← parseList? parsePair? a
+      let b ← parseList? parsePair? b
+      some (populate s.useIid a b, "ok")
+  | ["w", j, n] => do
+      let j ← parseNat? j
+      let n ← parseNat? n
+      match addProposalWeight s j n with
+      | .ok s' => some (s', "ok")
+      | .error e => some (s, showErr e)
+  | ["t", it, a, b] => do
+      let it ← parseInt? it
+      let a ← parseList? parseNew? a
+      let b ← parseList? parsePair? b
+      match addAndUpdateTrain s it a b with
+      | .ok s' => some (s', "ok")
+      | .error e => some (s, showErr e)
+  | ["i", it, a, b] => do
+      let it ← parseInt? it
+      let a ← parseList? parseNew? a
+      let b ← parseList? parsePair? b
+      match addAndUpdateIid s it a b with
+      | .ok s' => some (s', "ok")
+      | .error e => some (s, showErr e)
+  | ["dump"] => some (s, dump s)
+  | _ => none
+
+def runOps (s : St Rat) : List String → List String
+  | [] => []
+  | op :: ops =>
+    match stepOp s op with
+    | some (s', out) => out :: runOps s' ops
+    | none => ["bad-op"]
+
+def handle (toks : List String) : String :=
+  match toks with
+  | "run" :: ui :: rest =>
+    match parseBool? ui with
+    | some ui => "|".intercalate (runOps { useIid := ui } ((" ".intercalate rest).splitOn ";"))
+    | none => "bad-op"
+  | _ => "bad-op"
+
 end NessaiVerif.Driver.Meta
